@@ -449,63 +449,6 @@ template<class T> static string irange_case(const std::vector<string>& t)
   if (t.size() > 4 && t[4] != "-") for (auto& s : split(t[4], ',')) xs.push_back(std::is_unsigned_v<T> ? (ll) std::stoull(s) : std::stoll(s));
   return irange_obs(Dune::range(from, to), xs);
 }
-template<class T, T to, T from> static string sirange_obs(const std::vector<string>& t)
-{
-  using R = Dune::StaticIntegralRange<T, to, from>;
-  R r;
-  if (std::stoll(t[3]) != (ll) from || std::stoll(t[4]) != (ll) to) return "TABLE-MISMATCH";
-  std::ostringstream os;
-  std::vector<string> el; for (auto v : r) el.push_back(num<T>(v));
-  constexpr auto sz = R::size();
-  static_assert(Dune::IsIntegralConstant<std::decay_t<decltype(R::size())>>::value, "size() of a static range is an integral_constant");
-  os << "elems=" << join(el) << " size=" << num((std::size_t) sz) << " empty=" << (decltype(R::empty())::value ? 1 : 0);
-  std::vector<string> at; for (std::size_t i = 0; i < (std::size_t) sz; ++i) at.push_back(num<T>(r[i]));
-  os << " at=" << join(at);
-  std::vector<string> sq;
-  Dune::unpackIntegerSequence([&](auto... i) { (sq.push_back(num<T>(decltype(i)::value)), ...); }, typename R::integer_sequence{});
-  os << " seq=" << join(sq);
-  {
-    std::vector<string> sa, fl, tis;
-    if constexpr ((std::size_t) sz > 0) {
-      auto first = r[std::integral_constant<std::size_t, 0>{}]; auto last = r[std::integral_constant<int, (int) sz - 1>{}];
-      static_assert(Dune::IsIntegralConstant<decltype(first)>::value);
-      sa.push_back(num<T>(decltype(first)::value)); sa.push_back(num<T>(decltype(last)::value));
-    }
-    auto fac = Dune::range(std::integral_constant<T, from>{}, std::integral_constant<T, to>{});      // static factory
-    static_assert(std::is_same_v<decltype(fac), R>);
-    for (auto v : fac) fl.push_back(num<T>(v));
-    typename R::integer_sequence cs = r;                                                            // conversion operator
-    Dune::unpackIntegerSequence([&](auto... i) { (tis.push_back(num<T>(decltype(i)::value)), ...); }, R::to_integer_sequence());
-    (void) cs;
-    os << " ats=" << join(sa) << " fac=" << join(fl) << " tis=" << join(tis);
-    if constexpr (from == 0) { std::vector<string> f1; for (auto v : Dune::range(std::integral_constant<T, to>{})) f1.push_back(num<T>(v)); os << " fac1=" << join(f1); }
-    else os << " fac1=n/a";
-  }
-  Dune::IntegralRange<T> dyn = r;                 // cast into the dynamic range
-  std::vector<string> dl; for (auto v : dyn) dl.push_back(num<T>(v));
-  os << " dyn=" << join(dl) << " cont=";
-  std::vector<ll> xs; if (t.size() > 5 && t[5] != "-") xs = ints(t[5]);
-  if (xs.empty()) os << "-";
-  for (ll x : xs) os << (R::contains((T) x) ? '1' : '0');
-  return os.str();
-}
-static string sirange_case(const std::vector<string>& t)      // sirange <id> <T> <from> <to> <xs>
-{
-  switch (std::stoi(t[1])) {
-    case 0: return sirange_obs<int, 0, 0>(t);
-    case 1: return sirange_obs<int, 5, 0>(t);
-    case 2: return sirange_obs<int, 3, -4>(t);
-    case 3: return sirange_obs<int, -2, -6>(t);
-    case 4: return sirange_obs<std::size_t, 7, 2>(t);
-    case 5: return sirange_obs<short, 32767, 32760>(t);
-    case 6: return sirange_obs<unsigned char, 255, 250>(t);
-    case 7: return sirange_obs<long, 4, 4>(t);
-    case 8: return sirange_obs<unsigned, 1, 0>(t);
-    case 9: return sirange_obs<signed char, -120, -128>(t);
-  }
-  return "BADCASE";
-}
-
 // ------------------------------------------------------------------------------------------------ transformed / sparse ranges
 struct Affine {
   ll a, b; std::vector<ll>* calls;
@@ -600,7 +543,6 @@ string c16_misc_case(const std::vector<string>& t)
     if (T == "i64") return irange_case<long>(t); if (T == "u64") return irange_case<unsigned long>(t);
     return "BADCASE";
   }
-  if (t[0] == "sirange") return sirange_case(t);
   if (t[0] == "tr") return tr_case(t);
   if (t[0] == "sparse") return sparse_case(t);
   return "BADCASE";
@@ -726,6 +668,10 @@ string c16_hy_case(const std::vector<string>& t)
       case 1: if (from != 0 || to != 4) return "TABLE-MISMATCH"; s = Dune::Hybrid::switchCases(Dune::StaticIntegralRange<int, 4, 0>{}, (int) v, br, el); break;
       case 2: if (from != 2 || to != 7) return "TABLE-MISMATCH"; s = Dune::Hybrid::switchCases(Dune::StaticIntegralRange<int, 7, 2>{}, (int) v, br, el); break;
       case 3: if (from != -3 || to != 2) return "TABLE-MISMATCH"; s = Dune::Hybrid::switchCases(Dune::StaticIntegralRange<int, 2, -3>{}, (int) v, br, el); break;
+      case 4: if (from != 2 || to != 5) return "TABLE-MISMATCH";
+              static_assert(std::is_same_v<decltype(Dune::Hybrid::integralRange(Dune::Indices::_2, Dune::Indices::_5)), Dune::StaticIntegralRange<std::size_t, 5, 2>>);
+              s = v < 0 ? -1 : Dune::Hybrid::switchCases(Dune::Hybrid::integralRange(Dune::Indices::_2, Dune::Indices::_5), (std::size_t) v, br, el);
+              d = v < 0 ? -1 : Dune::Hybrid::switchCases(Dune::Hybrid::integralRange(std::size_t(2), std::size_t(5)), (std::size_t) v, br, el); break;
       default: return "BADCASE";
     }
     return "dyn=" + std::to_string(d) + " static=" + std::to_string(s);
@@ -752,30 +698,4 @@ string c16_hy_case(const std::vector<string>& t)
   return "BADCASE";
 }
 
-int main(int argc, char** argv)
-{
-  if (argc < 2) return 2;
-  std::ifstream in(argv[1]);
-  string line;
-  while (std::getline(in, line)) {
-    auto t = split(line);
-    string out;
-    try {
-      if (t.empty()) out = "BADCASE";
-      else if (t[0] == "cmp" || t[0] == "step" || t[0] == "cmpx") {
-        string kind = split(t[1], ':')[0];
-        if (kind == "dyn" || kind == "gen" || kind == "fv") out = c16_iter_case_1(t);
-        else if (kind == "al" || kind == "tr" || kind == "fmrow") out = c16_iter_case_2(t);
-        else if (kind == "ir") out = c16_iter_case_3(t);
-        else out = c16_misc_case(t);
-      }
-      else if (t[0] == "hy") out = c16_hy_case(t);
-      else if (t[0] == "cont" || t[0] == "bcmp" || t[0] == "bstep" || t[0] == "ncmp" || t[0] == "nstep" || t[0] == "trx" || t[0] == "rutil"
-               || t[0] == "iseq" || t[0] == "hyx" || t[0] == "sparsex" || t[0] == "arrow" || t[0] == "prim") out = c16_extra_case(t);
-      else out = c16_misc_case(t);
-    } catch (const std::exception& e) { out = string("EXC ") + e.what(); }
-    std::cout << out << std::endl;
-  }
-  return 0;
-}
 #endif   // PART(5)
